@@ -9,6 +9,7 @@ import (
 	"go/types"
 	"strings"
 
+	"golang.org/x/tools/go/ssa"
 	"golang.org/x/tools/go/types/typeutil"
 )
 
@@ -1466,5 +1467,143 @@ func distinctFieldTags(c *Ctx, rule string, encoders ...string) {
 		})
 		c.check(clash == "", rule, name, c.P.Pos(clashPos), fmt.Sprintf("%d tagged fields, all tags distinct", len(tagOf)),
 			fmt.Sprintf("%s: %s — the same text in either field gives the same encoding, so messages that differ are Equal and have equal checksums", name, clash))
+	}
+}
+
+// knownPanickingExternals: third-party entry points with a demonstrated panic on input. The design
+// trusts the decoding libraries; where that trust is known to be misplaced the call has to be
+// contained. Each row names the input that was run against the real code.
+var knownPanickingExternals = map[string]string{
+	"github.com/spdx/tools-golang/json.Read": `{"spdxVersion":"SPDX-2.3",…,"packages":[null]} — nil pointer dereference in v2_3.(*Document).UnmarshalJSON`,
+}
+
+// panickingDecoderContained: C04 — a call of a listed external reachable from the parser entry points
+// sits in a function that defers a function literal calling recover(), and that function has an error
+// result the literal assigns (so the panic becomes an error return).
+func panickingDecoderContained(c *Ctx, entries []string) {
+	const R = "panicking-decoder-contained"
+	c.rule(R, "every call of a third-party function listed as panicking on some input (frozen table, each row with the input that was run) reachable from the parser entry points is made by a function that defers a literal calling recover() and assigning its error result")
+	n := 0
+	for _, d := range c.reachDecls(R, entries...) {
+		for _, cs := range callsIn(d.pkg, d.fd.Body) {
+			why, listed := knownPanickingExternals[cs.callee.FullName()]
+			if !listed {
+				continue
+			}
+			n++
+			contained := false
+			ast.Inspect(d.fd.Body, func(x ast.Node) bool {
+				df, ok := x.(*ast.DeferStmt)
+				if !ok {
+					return true
+				}
+				lit, isLit := df.Call.Fun.(*ast.FuncLit)
+				if !isLit {
+					return true
+				}
+				recovers, assignsErr := false, false
+				ast.Inspect(lit.Body, func(y ast.Node) bool {
+					switch z := y.(type) {
+					case *ast.CallExpr:
+						if id, ok := z.Fun.(*ast.Ident); ok && id.Name == "recover" {
+							if _, isB := d.pkg.TypesInfo.Uses[id].(*types.Builtin); isB {
+								recovers = true
+							}
+						}
+					case *ast.AssignStmt:
+						for _, l := range z.Lhs {
+							if o := objOf(d.pkg, l); o != nil && o.Type().String() == "error" {
+								assignsErr = true
+							}
+						}
+					}
+					return true
+				})
+				if recovers && assignsErr && df.Pos() < cs.call.Pos() {
+					contained = true
+				}
+				return true
+			})
+			c.check(contained, R, d.name+"#"+shortCallee(cs.callee.FullName()), c.P.Pos(cs.call.Pos()), "the call is made under a deferred recover that turns a panic into an error",
+				fmt.Sprintf("%s is called without a deferred recover: it panics on %s, and the panic leaves the parser entry point instead of an error", cs.callee.FullName(), why))
+		}
+	}
+	if n == 0 {
+		c.okTrivial(R, "none", "-", "no listed external is called from the parsers")
+	}
+}
+
+// optionCapturesArgumentsOnly: C18 — an option value may be applied to several constructors. What its
+// closure stores into an instance is either the caller's own argument or something the closure
+// allocates when it runs. A reference the option *constructor* allocated (a default made once per
+// option value and captured) ends up shared by every instance the option is applied to.
+func optionCapturesArgumentsOnly(c *Ctx) {
+	const R = "option-captures-arguments-only"
+	c.rule(R, "in functions returning ReaderOption/WriterOption every reference-typed variable the closure captures holds only the constructor's own parameters: no store of a value allocated or computed in the constructor body (it would be one object shared by all instances the option value is applied to)")
+	n := 0
+	for _, fn := range c.P.Funcs {
+		if fn.Parent() != nil || fn.Signature.Results().Len() != 1 || fn.Blocks == nil {
+			continue
+		}
+		nt, ok := fn.Signature.Results().At(0).Type().(*types.Named)
+		if !ok || (nt.Obj().Name() != "ReaderOption" && nt.Obj().Name() != "WriterOption") {
+			continue
+		}
+		n++
+		name := fnName(fn)
+		bad := ""
+		var badPos token.Pos
+		isParamVal := func(v ssa.Value) bool {
+			for i := 0; i < 6; i++ {
+				switch x := v.(type) {
+				case *ssa.Parameter:
+					return true
+				case *ssa.ChangeType:
+					v = x.X
+					continue
+				case *ssa.Convert:
+					v = x.X
+					continue
+				case *ssa.Const:
+					return true
+				}
+				break
+			}
+			return false
+		}
+		for _, b := range fn.Blocks {
+			for _, ins := range b.Instrs {
+				mc, ok := ins.(*ssa.MakeClosure)
+				if !ok {
+					continue
+				}
+				for _, bind := range mc.Bindings {
+					switch x := bind.(type) {
+					case *ssa.Parameter:
+						// captured by value: the caller's argument
+					case *ssa.Alloc:
+						// captured by reference: every value stored into the cell
+						et := x.Type().(*types.Pointer).Elem()
+						if !isRefType(et) {
+							continue
+						}
+						for _, ref := range *x.Referrers() {
+							if st, isStore := ref.(*ssa.Store); isStore && st.Addr == ssa.Value(x) && !isParamVal(st.Val) {
+								bad, badPos = fmt.Sprintf("the captured variable %s is assigned %s in the constructor body", x.Comment, st.Val.String()), st.Pos()
+							}
+						}
+					default:
+						if isRefType(bind.Type()) && !isParamVal(bind) {
+							bad, badPos = fmt.Sprintf("the closure captures %s, computed in the constructor body", bind.String()), mc.Pos()
+						}
+					}
+				}
+			}
+		}
+		c.check(bad == "", R, name, c.P.Pos(badPos), "the closure captures the constructor's parameters only",
+			fmt.Sprintf("%s: %s — one object is installed in every instance this option value is applied to, so changing it through one instance changes the others", name, bad))
+	}
+	if n == 0 {
+		c.undecided(R, "anchor:options", "-", "no option constructor found")
 	}
 }
